@@ -1311,6 +1311,29 @@ func run(c *mon.Ctx) {
 	c.Floor("reencode.after_caller_edit_of_result", 500)
 	c.Floor("handle.component_edit", 100)
 	c.Floor("handle.mid_edit", 40)
+	// decoding and encoding are functions of their arguments whoever else is doing the same at that moment
+	c.Floor("concurrent.calls", 5000)
+	c.Stream("concurrent-codecs", c.N(3, 150), func(i int, r *gen.Rand) {
+		c.Concurrent("scte35.NewSCTE35 + UpdateData", 8, 250, r, func(q *gen.Rand) string {
+			s := ref.GenSig(q, true)
+			sec := s.Section()
+			x, err := scte35.NewSCTE35(s.Payload())
+			if err != nil || x == nil {
+				return fmt.Sprintf("a canonical section was rejected: %v", err)
+			}
+			if q.Bool() {
+				// an edit that keeps the length, then the encoding of the new values
+				s.Tier = uint16(q.Intn(4096))
+				x.SetTier(s.Tier)
+				sec = s.Section()
+			}
+			if got := x.UpdateData(); !bytes.Equal(got, sec) {
+				return fmt.Sprintf("the encoding differs from the canonical section at byte %d of %d (%s)", ref.FirstDiff(got, sec), len(sec), s35.Shape(&s))
+			}
+			return ""
+		})
+		c.Class("concurrent-codecs")
+	})
 	c.Stream("reencode", c.N(30000, 15000000), func(i int, r *gen.Rand) { reencode(c, r) })
 	c.Stream("built", c.N(20000, 10000000), func(i int, r *gen.Rand) { builtFrom(c, r) })
 	c.Stream("histories", c.N(20000, 10000000), func(i int, r *gen.Rand) { history(c, r) })
